@@ -385,6 +385,8 @@ class BtRun(object):
         CLOCK.now = 0
         self.ctx = Ctx()
         self.root = build(spec, self.ctx, names)
+        self.tree = py_trees.trees.BehaviourTree(self.root)
+        self.names = names
         self.dead = False
 
     def step(self, line):
@@ -405,6 +407,8 @@ class BtRun(object):
                 Blackboard.storage[toks[1]] = val_parse(toks[2])
             elif op == "unsetbb":
                 Blackboard.storage.pop(toks[1], None)
+            elif op in ("prune", "replace", "insert"):
+                return self.edit(op, toks)
             else:
                 return ["bad-op"]
         except Exception as e:  # noqa: B902
@@ -412,6 +416,29 @@ class BtRun(object):
             self.last_exception = e
             return ["ERR " + err_kind(e)]
         return report(self.root, ctx)
+
+
+def _edit(self, op, toks):
+    import uuid
+    ctx = self.ctx
+    target = int(toks[1])
+    uid = ctx.by_id[target].id if target in ctx.by_id else uuid.uuid4()
+    try:
+        if op == "prune":
+            r = self.tree.prune_subtree(uid)
+        elif op == "replace":
+            sub, rest = parse_spec(toks[2:])
+            r = self.tree.replace_subtree(uid, build(sub, ctx, self.names))
+        else:
+            sub, rest = parse_spec(toks[3:])
+            r = self.tree.insert_subtree(build(sub, ctx, self.names), uid, int(toks[2]))
+        res = "True" if r else "False"
+    except (RuntimeError, TypeError) as e:
+        res = type(e).__name__
+    return ["R " + res] + report(self.root, ctx)
+
+
+BtRun.edit = _edit
 
 
 def run_bt(scn):
